@@ -202,6 +202,8 @@ func VerifMain(args []string) int {
 		runPathStreams(out, r, *n)
 	case "fields":
 		runFieldStreams(out, r, *n)
+	case "bind":
+		runBindStreams(out, r, *n)
 	case "rename":
 		runRenameStreams(out, *src)
 	case "names":
